@@ -1,7 +1,7 @@
 // Command c02 executes C02 / C10 scenarios against the real roundrobin package: a RoundRobin, or a
 // Rebalancer (scripted meters) on top of a RoundRobin.  Exported API only.
 //
-//	cfg via=rr|rb [sticky=1] [backoff=<ns>] [ready=0|1]
+//	cfg via=rr|rb [sticky=1 [codec=hash|aes]] [backoff=<ns>] [ready=0|1]   (codec: the affinity cookie is minted by stickycookie.HashValue / AESValue)
 //	upsert <scheme> <host> <path|-> [user=..] [query=..] [w=<int>]  -> ok | err negweight | err other
 //	remove <scheme> <host> <path|->                                  -> ok | err notfound
 //	weight <scheme> <host> <path|->                                  -> <w> | none      (of the RoundRobin)
@@ -32,6 +32,7 @@ import (
 	"time"
 
 	"github.com/vulcand/oxy/v2/roundrobin"
+	"github.com/vulcand/oxy/v2/roundrobin/stickycookie"
 	"github.com/vulcand/oxy/v2/zzverif/hx"
 )
 
@@ -57,6 +58,7 @@ type h struct {
 	lb     *pausingLB // via=rb only: between the Rebalancer and rr
 	fr     front
 	sticky bool
+	codec  stickycookie.CookieValue // nil: the default (plain URL) affinity cookie
 	now    int64
 	// scripted meters, by (scheme,host,path) of the server they were created for
 	meters   map[string]*meter
@@ -339,7 +341,11 @@ func (s *h) Op(f []string) string {
 				return "bad-op"
 			}
 			cu := &url.URL{Scheme: p[0], Host: p[1], Path: pth(p[2])}
-			req.AddCookie(&http.Cookie{Name: "vsticky", Value: cu.String()})
+			val := cu.String()
+			if s.codec != nil { // hashed / encrypted affinity cookie naming the same server
+				val = s.codec.Get(cu)
+			}
+			req.AddCookie(&http.Cookie{Name: "vsticky", Value: val})
 		}
 		s.mutate = ""
 		if m, ok := hx.KV(f[1:], "mutate"); ok {
@@ -684,6 +690,21 @@ func main() {
 		}
 		s := &h{meters: map[string]*meter{}}
 		s.sticky = hx.KVInt(cfg, "sticky", 0) == 1
+		newSticky := func() *roundrobin.StickySession {
+			ss := roundrobin.NewStickySession("vsticky")
+			switch c, _ := hx.KV(cfg, "codec"); c {
+			case "hash":
+				s.codec = &stickycookie.HashValue{Salt: "c02"}
+			case "aes":
+				if v, err := stickycookie.NewAESValue([]byte("0123456789abcdef"), 0); err == nil {
+					s.codec = v
+				}
+			}
+			if s.codec != nil {
+				ss.SetCookieValue(s.codec)
+			}
+			return ss
+		}
 		s.newReady = hx.KVInt(cfg, "ready", 0) == 1
 		hx.FreezeAt(0)
 		next := http.HandlerFunc(s.downstream)
@@ -692,7 +713,7 @@ func main() {
 		if via == "rr" {
 			opts := []roundrobin.LBOption{eh}
 			if s.sticky {
-				opts = append(opts, roundrobin.EnableStickySession(roundrobin.NewStickySession("vsticky")))
+				opts = append(opts, roundrobin.EnableStickySession(newSticky()))
 			}
 			s.rr, err = roundrobin.New(next, opts...)
 			if err != nil {
@@ -720,7 +741,7 @@ func main() {
 			ropts = append(ropts, roundrobin.RebalancerBackoff(time.Duration(b)))
 		}
 		if s.sticky {
-			ropts = append(ropts, roundrobin.RebalancerStickySession(roundrobin.NewStickySession("vsticky")))
+			ropts = append(ropts, roundrobin.RebalancerStickySession(newSticky()))
 		}
 		s.lb = &pausingLB{RoundRobin: s.rr}
 		rb, err := roundrobin.NewRebalancer(s.lb, ropts...)
